@@ -33,55 +33,7 @@ func runC03(k *eng.Check, tier string) {
 	c := k.C
 	nbs := c.Funcs("store/nbs")
 
-	// (1) root-hash record appenders: semantic anchor = every nbs function that calls writeRootHashRecord
-	n := 0
-	for _, fn := range nbs {
-		recs := eng.Calls(fn, mWriteRootRe, false)
-		if len(recs) == 0 {
-			continue
-		}
-		n++
-		exits := eng.SuccessExits(fn)
-		syncOK := k.OkCalls(fn, "sync", mSync)
-		flushOK := k.OkCalls(fn, "writeat", mWriteAt)
-		syncCalls := eng.NewSet()
-		for _, b := range fn.Blocks {
-			for _, in := range b.Instrs {
-				if call, ok := in.(*ssa.Call); ok {
-					if mSync(call) {
-						syncCalls.AddI(call)
-					} else if f := call.Call.StaticCallee(); f != nil && c.MustPass(f, "sync", mSync, 3) {
-						syncCalls.AddI(call)
-					}
-				}
-			}
-		}
-		k.OnlyAfter("root-record-before-exit", fn, "success exit only after writeRootHashRecord", exits, 1, eng.CallSet(fn, mWriteRootRe))
-		// the writer's notion of the current root (re-committed by intermediate syncs) is updated to the
-		// root being committed before the commit is acknowledged
-		crStores := eng.NewSet()
-		for _, st := range eng.FieldStores(fn, `store/nbs\.journalWriter$`, "currentRoot") {
-			// the stored value is the root handed to writeRootHashRecord
-			same := false
-			for _, r := range recs {
-				if len(r.Common().Args) == 2 && st.(*ssa.Store).Val == r.Common().Args[1] {
-					same = true
-				}
-			}
-			if same {
-				crStores.AddI(st)
-			}
-		}
-		k.OnlyAfter("current-root-before-ack", fn, "a success exit is reached only after journalWriter.currentRoot was set to the committed root", exits, 1, crStores)
-		for _, r := range recs {
-			after := eng.After(r.(ssa.Instruction))
-			k.OnlyAfter("flush-before-sync", fn, "after the root record is buffered, fsync is reached only after a successful flush (WriteAt)", syncCalls, 1, flushOK, after)
-			k.OnlyAfter("sync-before-ack", fn, "after the root record is buffered, a success exit is reached only after a successful fsync", exits, 1, syncOK, after)
-		}
-	}
-	if n < 1 {
-		k.Unknown("root-record-appenders", "store/nbs", "functions that call writeRootHashRecord", "none found (floor 1)")
-	}
+	checkRootRecordAppenders(k)
 
 	// commitRootHash (locked wrapper) and writeCompressedChunk's intermediate sync go through commitRootHashUnlocked
 	if fn := k.Fn("(*store/nbs.journalWriter).commitRootHash"); fn != nil {
@@ -286,6 +238,64 @@ func runC03(k *eng.Check, tier string) {
 		}
 		k.OnlyAfter("record-validated-before-use", fn, "cb receives a record only past the maximum-length comparison", cb, 1, eng.CondEdges(fn, `> \*global:store/nbs\.journalWriterBuffSize\)$`, false))
 	}
+}
+
+// checkRootRecordAppenders: every function that appends a root-hash record to the journal acknowledges
+// only after record -> flush -> fsync (each error-checked) and after recording the committed root as the
+// writer's current root.  Shared by C03 (crash recovery) and C02 (acknowledged commits persist).
+func checkRootRecordAppenders(k *eng.Check) {
+	c := k.C
+	nbs := c.Funcs("store/nbs")
+	// (1) root-hash record appenders: semantic anchor = every nbs function that calls writeRootHashRecord
+	n := 0
+	for _, fn := range nbs {
+		recs := eng.Calls(fn, mWriteRootRe, false)
+		if len(recs) == 0 {
+			continue
+		}
+		n++
+		exits := eng.SuccessExits(fn)
+		syncOK := k.OkCalls(fn, "sync", mSync)
+		flushOK := k.OkCalls(fn, "writeat", mWriteAt)
+		syncCalls := eng.NewSet()
+		for _, b := range fn.Blocks {
+			for _, in := range b.Instrs {
+				if call, ok := in.(*ssa.Call); ok {
+					if mSync(call) {
+						syncCalls.AddI(call)
+					} else if f := call.Call.StaticCallee(); f != nil && c.MustPass(f, "sync", mSync, 3) {
+						syncCalls.AddI(call)
+					}
+				}
+			}
+		}
+		k.OnlyAfter("root-record-before-exit", fn, "success exit only after writeRootHashRecord", exits, 1, eng.CallSet(fn, mWriteRootRe))
+		// the writer's notion of the current root (re-committed by intermediate syncs) is updated to the
+		// root being committed before the commit is acknowledged
+		crStores := eng.NewSet()
+		for _, st := range eng.FieldStores(fn, `store/nbs\.journalWriter$`, "currentRoot") {
+			// the stored value is the root handed to writeRootHashRecord
+			same := false
+			for _, r := range recs {
+				if len(r.Common().Args) == 2 && st.(*ssa.Store).Val == r.Common().Args[1] {
+					same = true
+				}
+			}
+			if same {
+				crStores.AddI(st)
+			}
+		}
+		k.OnlyAfter("current-root-before-ack", fn, "a success exit is reached only after journalWriter.currentRoot was set to the committed root", exits, 1, crStores)
+		for _, r := range recs {
+			after := eng.After(r.(ssa.Instruction))
+			k.OnlyAfter("flush-before-sync", fn, "after the root record is buffered, fsync is reached only after a successful flush (WriteAt)", syncCalls, 1, flushOK, after)
+			k.OnlyAfter("sync-before-ack", fn, "after the root record is buffered, a success exit is reached only after a successful fsync", exits, 1, syncOK, after)
+		}
+	}
+	if n < 1 {
+		k.Unknown("root-record-appenders", "store/nbs", "functions that call writeRootHashRecord", "none found (floor 1)")
+	}
+
 }
 
 func journalRecv(d string) bool {
